@@ -41,7 +41,7 @@ REPORTS_OBS = ["r:wyear:orig", "r:wyear:x3", "r:wyear:shuffled", "r:wyear:partna
 SCENARIOS = {
     # name: template, baselines, reports, slots, ignore flags
     "gate": dict(template="T_gate", base=["b:good", "b:short", "b:poor", "b:netpoor"], reports=REPORTS_GATE, slots=["s1", "s2"], ign=[True, False]),
-    "gate2": dict(template="T_gate", base=["b:gaps", "b:east", "b:poor", "b:long", "b:neggas"], reports=REPORTS_GATE, slots=["s1", "s2"], ign=[True, False]),
+    "gate2": dict(template="T_gate", base=["b:gaps", "b:east", "b:poor", "b:long", "b:neggas", "b:summerzero"], reports=REPORTS_GATE, slots=["s1", "s2"], ign=[True, False]),
     "refit": dict(template="T_refit", base=["b:good", "b:short", "b:poor"], reports=["r:wmonth:orig", "r:weast:orig"], slots=["s1"], ign=[True, False]),
     "store": dict(template="T_store", base=["b:good", "b:poor", "b:short", "b:allheat"], reports=["r:wyear:orig", "r:wweek:orig", "r:wpart:absent"], slots=["s1", "s2"], ign=[True]),
     "store2": dict(template="T_store2", base=["b:good", "b:other"], reports=["r:wweek:orig"], slots=["s1", "s2"], ign=[True]),
